@@ -323,7 +323,13 @@ func (env *SpecEnv) lvalue(sp Spec) *Addr {
 	switch t := g.E.(type) {
 	case *ast.SelectorExpr:
 		var x Val
-		if inner, ok := t.X.(*ast.SelectorExpr); ok {
+		if _, isSel := t.X.(*ast.SelectorExpr); isSel {
+			// the base may itself be a pointer-typed expression (a pointer field of a struct value)
+			if v, ok := env.tryExpr(t.X); ok && v.K == KAddr && v.T != nil && isPointer(v.T) {
+				x = v
+			}
+		}
+		if inner, ok := t.X.(*ast.SelectorExpr); ok && x.A == nil {
 			// x.a.b where a is a struct-valued field: address of x.a, extended
 			if _, isPkg := inner.X.(*ast.Ident); !isPkg || env.isVar(inner.X.(*ast.Ident).Name) {
 				base := env.lvalue(&SGo{inner})
@@ -378,6 +384,15 @@ func (env *SpecEnv) lvalue(sp Spec) *Addr {
 	}
 	env.fail("unsupported lvalue %s", types.ExprString(g.E))
 	return nil
+}
+
+func (env *SpecEnv) tryExpr(e ast.Expr) (v Val, ok bool) {
+	defer func() {
+		if r := recover(); r != nil {
+			ok = false
+		}
+	}()
+	return env.expr(e), true
 }
 
 func (env *SpecEnv) isVar(name string) bool {
